@@ -4,7 +4,7 @@
 
 use crate::crypto;
 use crate::pb;
-use crate::store::{MemStorage, NoQuerier, SimApi};
+use crate::store::{MemStorage, SimApi};
 use cosmwasm_std::{
     Addr, BankMsg, Binary, BlockInfo, Coin, ContractInfo, CosmosMsg, Deps, DepsMut, Empty, Env, MessageInfo,
     QuerierWrapper, Reply, ReplyOn, Response, SubMsg, SubMsgResponse, SubMsgResult, Timestamp, TransactionInfo,
@@ -293,7 +293,7 @@ impl Chain {
 
     pub fn query<T: serde::de::DeserializeOwned>(&self, msg: QueryMsg) -> Result<T, String> {
         let api = self.api();
-        let q = NoQuerier;
+        let q = crate::store::BankQuerier { bank: self.w.bank.clone() };
         let deps = Deps { storage: &self.w.storage, api: &api, querier: QuerierWrapper::new(&q) };
         let env = self.env();
         match guarded(|| staking::contract::query(deps, env, msg)) {
@@ -306,7 +306,7 @@ impl Chain {
     /// Query that distinguishes a panic (C16) from an error.
     pub fn query_raw(&self, msg: QueryMsg) -> Result<Result<Binary, String>, PanicInfo> {
         let api = self.api();
-        let q = NoQuerier;
+        let q = crate::store::BankQuerier { bank: self.w.bank.clone() };
         let deps = Deps { storage: &self.w.storage, api: &api, querier: QuerierWrapper::new(&q) };
         let env = self.env();
         guarded(|| staking::contract::query(deps, env, msg)).map(|r| r.map_err(|e| e.to_string()))
@@ -315,7 +315,7 @@ impl Chain {
     pub fn instantiate(&mut self, sender: &str, msg: InstantiateMsg) -> TxOutcome {
         self.run_tx(|ch, eff| {
             let api = ch.api();
-            let q = NoQuerier;
+            let q = crate::store::BankQuerier { bank: ch.w.bank.clone() };
             let env = ch.env();
             let info = MessageInfo { sender: Addr::unchecked(sender), funds: vec![] };
             let r = guarded(|| {
@@ -329,7 +329,7 @@ impl Chain {
     pub fn migrate(&mut self, msg: MigrateMsg) -> TxOutcome {
         self.run_tx(|ch, eff| {
             let api = ch.api();
-            let q = NoQuerier;
+            let q = crate::store::BankQuerier { bank: ch.w.bank.clone() };
             let env = ch.env();
             let r = guarded(|| {
                 let deps = DepsMut { storage: &mut ch.w.storage, api: &api, querier: QuerierWrapper::new(&q) };
@@ -357,7 +357,7 @@ impl Chain {
             credit(&mut self.w.bank, &self.contract.clone(), &c.denom, c.amount.u128());
         }
         let api = self.api();
-        let q = NoQuerier;
+        let q = crate::store::BankQuerier { bank: self.w.bank.clone() };
         let env = self.env();
         let info = MessageInfo { sender: Addr::unchecked(sender), funds: funds.to_vec() };
         let r = guarded(|| {
@@ -371,7 +371,7 @@ impl Chain {
     pub fn sudo(&mut self, msg: SudoMsg) -> TxOutcome {
         self.run_tx(|ch, eff| {
             let api = ch.api();
-            let q = NoQuerier;
+            let q = crate::store::BankQuerier { bank: ch.w.bank.clone() };
             let env = ch.env();
             let r = guarded(|| {
                 let deps = DepsMut { storage: &mut ch.w.storage, api: &api, querier: QuerierWrapper::new(&q) };
@@ -385,7 +385,7 @@ impl Chain {
     pub fn raw_reply(&mut self, reply: Reply) -> TxOutcome {
         self.run_tx(|ch, eff| {
             let api = ch.api();
-            let q = NoQuerier;
+            let q = crate::store::BankQuerier { bank: ch.w.bank.clone() };
             let env = ch.env();
             let r = guarded(|| {
                 let deps = DepsMut { storage: &mut ch.w.storage, api: &api, querier: QuerierWrapper::new(&q) };
@@ -479,7 +479,7 @@ impl Chain {
             };
             if let Some(result) = result {
                 let api = self.api();
-                let q = NoQuerier;
+                let q = crate::store::BankQuerier { bank: self.w.bank.clone() };
                 let env = self.env();
                 let reply = Reply { id: sm.id, result };
                 let r = guarded(|| {
